@@ -96,6 +96,16 @@ func decoyOf(rm map[string]string) valid.RM {
 	return d
 }
 
+// multiTokenDecoy hands a decoy rule set over with TWO type tokens.  SetRule takes one ("obj 只支持一个参数,
+// 多个无效": several are invalid), so this registers nothing - for no type and not as the unscoped set.
+func multiTokenDecoy(vs *valid.VStruct, like map[string]string) {
+	d := decoyOf(like)
+	for _, k := range []string{"A", "B", "N", "S", "L", "M", "Val", "Left"} {
+		d[k] = "required|multi-token decoy " + k + ",to=1~1|multi-token decoy"
+	}
+	vs.SetRule(d, &lib.Leaf{}, &lib.Stamp{})
+}
+
 // globalFnNames are registered once per process in registerGlobals.
 var globalFnNames = map[string]bool{}
 
@@ -260,6 +270,9 @@ func (c *StructCase) call(src interface{}) error {
 		}
 	}
 	perType(vs)
+	if c.Twice {
+		multiTokenDecoy(vs, c.Unscoped)
+	}
 	for _, n := range c.CallFns {
 		vs.SetValidFn(n, customFn("call", n))
 	}
